@@ -93,11 +93,49 @@ def valid_case(case):
     return True
 
 
+class _Abort(Exception):
+    pass
+
+
+ABORTED = [
+    ["# pending comment\n", "# second\n"],
+    ["A0: stale\n", " stale continuation\n"],
+    ["stale error line\n", "another\n"],
+    ["A0: stale\n", "B0: stale\n", "# c\n"],
+    ["\n", " \n"],
+]
+
+
+def aborted_parse(k):
+    """An earlier parse in this process that never completed: its line source fails while a run of
+    comment / field / error / blank lines is still pending (k selects which), or hands over
+    inconsistent line endings.  Nothing of it may show up in any later parse."""
+    def src():
+        for l in ABORTED[k % len(ABORTED)]:
+            yield l
+        raise _Abort()
+    try:
+        parse_deb822_file(src(), accept_files_with_error_tokens=True,
+                          accept_files_with_duplicated_fields=True)
+    except _Abort:
+        pass
+    try:
+        parse_deb822_file(iter(ABORTED[(k + 1) % len(ABORTED)] + ["unterminated", "next\n"]),
+                          accept_files_with_error_tokens=True, accept_files_with_duplicated_fields=True)
+    except ValueError:
+        pass
+    try:
+        list(tokenize_deb822_file(src()))
+    except _Abort:
+        pass
+
+
 def check(case):
     if not valid_case(case):
         return (False, ("invalid-case-skipped",))
     exp = expected_text(case)
     lines = input_lines(case)
+    aborted_parse(len(exp) + len(lines))
     # token stream
     toks = list(tokenize_deb822_file(iter(lines)))
     got = "".join(t.text for t in toks)
